@@ -267,6 +267,28 @@ def entry_rule(ctx, p):
         cs = [cc for cc in m.calls() if isinstance(cc.func, ast.Attribute) and cc.func.attr == call_name and norm_text(cc.func.value) == "border_relocator"]
         got = {k: norm_text(v) for k, v in wire.kw(cs[0]).items()} if len(cs) == 1 else {}
         ctx.ob(rule, f"{ab.key}.{meth}", got == want, where=m, node=cs[0] if cs else m.node, construct=str(got), message=f"expected border_relocator.{call_name}({want})")
+        # the relocator is consulted exactly when one is given: its call sits under `border_relocator is not None`; an exit that hands the input back is taken only without a relocator
+        def given(conds):
+            """True / False when the path conditions say a relocator is given / absent, None when they do not say"""
+            for t_, truth in conds:
+                t_ = t_.replace(" ", "")
+                if t_ in ("border_relocatorisnotNone", "border_relocator"):
+                    return truth
+                if t_ == "border_relocatorisNone":
+                    return not truth
+            return None
+        passthrough = "source_plane_data_grid" if meth == "relocated_grid_from" else "source_plane_mesh_grid"
+        bad = []
+        for r in wire.returns_of(m):
+            conds = wire.path_conds(m, r, inline=True)
+            if cs and any(sub is cs[0] for sub in ast.walk(r)):
+                if given(conds) is not True:
+                    bad.append(r)
+            elif r.value is not None and norm_text(r.value) == passthrough:
+                if given(conds) is not False:
+                    bad.append(r)
+        ctx.ob(rule, f"{ab.key}.{meth}:given", bool(cs) and not bad, where=m, node=bad[0] if bad else m.node, construct=norm_text(bad[0])[:160] if bad else "",
+               message=f"border_relocator.{call_name} must be the result whenever a relocator is given (border_relocator is not None); `{passthrough}` may be handed back unchanged only without one")
 
 
 def run(ctx):
@@ -289,6 +311,9 @@ CONTROLS = [
     Control("moved point not re-centred", _G, in_func("relocated_grid_via_jit_from", "move_factor * (grid[pixel_index, :] - border_origin[:])\n                    + border_origin[:]", "move_factor * (grid[pixel_index, :] - border_origin[:])"), "C18.relocate"),
     Control("nearest border point by y only", _G, in_func("relocated_grid_via_jit_from", "np.square(grid[pixel_index, 0] - border_grid[:, 0])\n                + np.square(grid[pixel_index, 1] - border_grid[:, 1])", "np.square(grid[pixel_index, 0] - border_grid[:, 0])"), "C18.relocate"),
     Control("output starts as zeros only", _G, in_func("relocated_grid_via_jit_from", "    grid_relocated[:, :] = grid[:, :]\n", ""), "C18.relocate"),
+    Control("mesh: relocator consulted only when absent", "autoarray/inversion/pixelization/mesh/abstract.py", in_func("AbstractMesh.relocated_mesh_grid_from", "if border_relocator is not None:", "if border_relocator is None:"), "C18.entry"),
+    Control("twin: mesh relocator test by early return", "autoarray/inversion/pixelization/mesh/abstract.py", in_func("AbstractMesh.relocated_mesh_grid_from", "        if border_relocator is not None:\n            return border_relocator.relocated_mesh_grid_from(\n                grid=source_plane_data_grid, mesh_grid=source_plane_mesh_grid\n            )\n        return source_plane_mesh_grid",
+            "        if border_relocator is None:\n            return source_plane_mesh_grid\n        return border_relocator.relocated_mesh_grid_from(\n            grid=source_plane_data_grid, mesh_grid=source_plane_mesh_grid\n        )"), None, twin=True),
     Control("empty-border exit negated (a non-empty border relocates nothing)", _B, in_func("BorderRelocator.relocated_grid_from", "if len(self.sub_border_grid) == 0:", "if not len(self.sub_border_grid) == 0:"), "C18.entry"),
     Control("empty-border exit taken for a one-point border", _B, in_func("BorderRelocator.relocated_mesh_grid_from", "if len(self.sub_border_grid) == 0:", "if len(self.sub_border_grid) <= 1:"), "C18.entry"),
     Control("twin: empty-border exit by truthiness", _B, in_func("BorderRelocator.relocated_grid_from", "if len(self.sub_border_grid) == 0:", "if not len(self.sub_border_slim):"), None, twin=True),
